@@ -64,6 +64,19 @@ def prepared(lib, m, sseed, nsettle):
 
 
 def run_case(ck, lib, case):
+  from vf import mj
+  try:
+    return _run_case(ck, lib, case)
+  except mj.MjError as e:
+    # the generated model/state makes the engine raise (singular inertia, diverged state): not an equivalence matter.
+    # Both twins run the same pipeline functions; an error on the unchanged tree is a property of the input.
+    if any(t in str(e) for t in ('rank-deficient', 'diagonal element too small', 'Cholesky', 'stack overflow', 'unstable')):
+      ck.discard('engine-error:' + str(e).split(':')[0][:30])
+      return
+    raise
+
+
+def _run_case(ck, lib, case):
   gm, sseed, nsettle, iseed, rel, skipsensor = case
   try:
     m = lib.model_from_xml(gm.xml)
